@@ -329,7 +329,7 @@ def _scheduled_body(path, n, step_each):
 HARNESSES = {
     "reset_isolation": {
         "fn": reset_isolation,
-        "quick": [{"fixed": {"k": 1, "kind": "switched", "s0": s, "rs": 0}, "timeout": 280} for s in (0, 19, 23, 40)] + [{"fixed": {"k": 1, "kind": "routed", "s0": 0, "rs": 0}, "timeout": 280}]
+        "quick": [{"fixed": {"k": 1, "kind": "switched", "s0": s, "rs": 0}, "timeout": 280} for s in (0, 19, 23, 40)] + [{"fixed": {"k": 1, "kind": "routed", "s0": 0, "rs": 0}, "timeout": 280}, {"fixed": {"k": 1, "kind": "firewalled", "s0": 0, "rs": 0}, "timeout": 400}]
         # the seed of the compared episode solver-chosen in {5, 0, 1, 2^31-1}
         + [{"fixed": {"k": 1, "kind": "switched", "s0": 0, "d0": d}, "timeout": 280} for d in (0, 19)],
         "thorough": [{"fixed": {"k": 1, "kind": kd, "s0": s, "rs": 0}, "timeout": 1500} for kd in ("switched", "routed") for s in range(0, 54, 6)]
